@@ -140,6 +140,7 @@ def run(tier: str) -> int:
     cases = gen_cases(rnd, fam, 3000 if tier == "quick" else 10 ** 9)
     stats = {"cases": 0, "constructed": 0, "rejected": 0, "by_wrap": {}, "by_kind": {}, "classes_validated": 0, "model_compared": 0}
     mism, samples = [], []
+    alive = []            # every constructed node stays alive: a class must keep satisfying the contracts while later classes are generated
     reqs = []
     for (name, wrap, coll, vars_, ck) in cases:
         d = fam[name]
@@ -183,6 +184,7 @@ def run(tier: str) -> int:
                 mism.append({"case": pub, "difference": f"the factories reject ({err}) what the model accepts"})
             continue
         stats["constructed"] += 1
+        alive.append((node, pub, wrap, d["kind"]))
         rd, rn = real_desc(node), real_node_desc(node)
         # ---- oracle on the real classes ---------------------------------------------------------------
         for label, cls in (("node", type(node)), ("processor", type(node.processor))):
@@ -237,6 +239,14 @@ def run(tier: str) -> int:
                     mism.append({"case": pub, "difference": x})
         if len(samples) < 4 and i % 97 == 0:
             samples.append({"spec": spec, "processor": rd, "node": rn})
+    for node, pub, wrap, kind in alive:
+        for label, cls in (("node", type(node)), ("processor", type(node.processor))):
+            stats["classes_revalidated"] = stats.get("classes_revalidated", 0) + 1
+            errs = [(x.code, x.message) for x in validate_component(cls) if x.severity == "error"]
+            if errs:
+                rep.add_violation(f"contract-error-after-history:{label}:{errs[0][0]}:{wrap}:{kind}",
+                                  f"the generated {label} class {cls.__name__}, still in use, fails the contract catalogue after other classes were generated: {[e[0] for e in errs]}",
+                                  dict(pub, cls=cls.__name__, diagnostics=errs))
     if mism:
         rep.add_broken(f"correspondence C16: generated classes differ from the factory model in {len(mism)} places, first "
                        + json.dumps(mism[0], default=str)[:700])
